@@ -28,7 +28,7 @@ c = Counter(v['status'] for v in r.values())
 un = [k for k, v in r.items() if v['status'] == 'survived' and not v.get('triage')]
 with open(f'{V}/mutants/TRIAGE.md', 'w') as f:
     f.write("# Systematic single-site mutation of /repo's contract sources (tools/mutate.py)\n\n")
-    f.write(f"{len(r)} mutants (comparison / boolean / arithmetic operator replacement, storage durability, statement and effect deletion, adjacent-argument swaps, integer literals off by one, values of adjacent struct-literal fields exchanged, swallowed failures, early Ok) over every non-test source file of the seven contracts and the shared interfaces, each built with the harness and run against ALL 18 quick checks: "
+    f.write(f"{len(r)} mutants (comparison / boolean / arithmetic operator replacement, storage durability, statement and effect deletion, adjacent-argument swaps, integer literals off by one, values of adjacent struct-literal fields exchanged, swallowed failures, early Ok, a parameter replaced by another parameter of the same function) over every non-test source file of the seven contracts and the shared interfaces, each built with the harness and run against ALL 18 quick checks: "
             f"{c['no-compile']} do not compile, {c['killed']} are reported by at least one check, {c['survived']} survive. Every survivor is listed below with the reason; none is a property violation that goes unreported"
             + (f" — EXCEPT {len(un)} not yet triaged: {un}" if un else "") + ".\n\n")
     f.write("Survivors of the first runs that WERE gaps, and what closed them (they are now reported): a construction with an empty list of signer sets accepted (the C03 generator tried it but aborted — the check ignored the abort: DESIGN.md §14); "
